@@ -35,9 +35,15 @@ BOUNDS = {
              "L-shape) with kernels (3,3),(3,5),(5,3),(5,5),(1,7),(7,1); whole-frame convolution: all masks of 2x3 / 3x2 frames for 12 odd kernel "
              "shapes 1..7 x 1..7 plus 6 unmasked frames up to 5x4 (frames smaller than the kernel included); 11 kernel shapes with an even axis; "
              "simulate->mask->fit: all interior masks 2x3 with a (3,3) PSF and listed masks with (3,5),(5,3),(3,3) PSFs.",
-    "thorough": "as quick, with: all interior masks 3x4 for kernel (3,3); 3x3 for (3,5),(5,3),(5,5),(1,3),(3,1),(1,1); 2x4 / 4x2 for (1,5),(5,1); 2x3 / 3x2 "
-                "for (7,3),(3,7); 2x2 for (7,7); 18 listed larger masks with kernels up to (7,7); all 16 odd kernel shapes 1..7 x 1..7 whole-frame, "
-                "unmasked frames up to 7x5; simulate->mask->fit on all interior masks 3x3 and PSFs up to (7,3),(3,7),(5,5).",
+    "thorough": "as quick (same symbolic inputs and obligations), with ALL interior masks (>= 1 unmasked, ring of half a kernel masked) of: interior "
+                "3x4 and 4x3 (2 matrix columns) for kernel (3,3); 3x4 for (3,5),(1,3),(1,1); 4x3 for (5,3),(3,1); 3x3 for (3,5),(5,3) "
+                "(2 columns),(5,5),(1,5),(5,1),(7,3),(3,7),(7,7),(1,7),(7,1); 2x3 / 3x2 for (5,7),(7,5).  30 listed larger masks: the 5x5 patterns "
+                "(hole, two components, checkerboard, full, L-shape) and three 7x7 patterns (annulus with 3x3 hole, five islands, one-pixel spiral) and a "
+                "full 5x5 block with kernels up to (7,7),(7,5),(5,7),(1,7),(7,1).  Whole-frame: all masks of 2x3 / 3x2 AND 3x3 frames for all 16 odd "
+                "kernel shapes 1..7 x 1..7, unmasked frames up to 9x8 (incl. 2x9, 9x2, 1x9 thinner than the kernel), 11 even shapes.  "
+                "simulate->mask->re-mask->fit: all interior masks 3x4 (PSF (3,3), total 1), 3x3 for (3,3) with totals 1, 1/2, -1 (un-normalised) and 2 "
+                "(normalised), 3x3 for (3,5) total 1 and (5,3) total 2, 2x3 / 3x2 for (5,5) total 1/2, (1,5) normalised total 1/2, (5,1) total 4, (1,3), "
+                "(3,1); listed masks (incl. the 7x7 patterns) with PSFs up to (7,7),(5,7) and totals 1, 2, 1/4, -1/4, -1, -2.",
 }
 OUTSIDE = [
     "masks whose kernel footprint leaves the frame (Convolver raises MaskException via blurring_mask_2d_from - property C10; Imaging pads instead)",
@@ -765,7 +771,7 @@ def cases(tier):
     # (a) Convolver on every interior mask (outer ring of half a kernel masked)
     plan = [((3, 3), (3, 3), 2, 5), ((3, 5), (2, 3), 1, 1), ((5, 3), (3, 2), 1, 1), ((1, 3), (2, 3), 1, 1), ((3, 1), (3, 2), 1, 1), ((1, 1), (2, 2), 1, 0)]
     if not quick:
-        plan = [((3, 3), (3, 4), 2, 7), ((3, 3), (4, 3), 2, 7), ((3, 3), (3, 5), 1, 9),
+        plan = [((3, 3), (3, 4), 2, 7), ((3, 3), (4, 3), 2, 7), 
                 ((3, 5), (3, 4), 1, 7), ((5, 3), (4, 3), 1, 7), ((3, 5), (3, 3), 2, 4), ((5, 3), (3, 3), 2, 4), ((5, 5), (3, 3), 1, 4),
                 ((1, 3), (3, 4), 1, 6), ((3, 1), (4, 3), 1, 6), ((1, 1), (3, 4), 1, 6),
                 ((1, 5), (3, 3), 1, 4), ((5, 1), (3, 3), 1, 4), ((7, 3), (3, 3), 1, 4), ((3, 7), (3, 3), 1, 4), ((7, 7), (3, 3), 1, 4),
